@@ -216,14 +216,18 @@ def framed (rd : Bytes → Res (List OCall × Nat)) (wt : WT) (body : Bytes) : R
       if l > (body.drop n).length then .err else Res.addN n (rd ((body.drop n).take l))
   else rd body
 
-/-- the packed arm of `readAsSlice`: `for offset < len(data) { n, err := elt.read(out, data[offset:]); offset += n }`. -/
+/-- the packed arm of `readAsSlice`:
+`for offset < len(data) { n, err := elt.read(out, data[offset:]); if n <= 0 { error }; offset += n }`.
+(The `n <= 0` check is a repair: a truncated varint reads as zero bytes consumed
+with no error, and the loop used to spin on it.) -/
 def packedLoop (rd : Bytes → Res (List OCall × Nat)) :
     (fuel : Nat) → Bytes → Nat → List OCall → Res (List OCall × Nat)
   | 0, _, _, _ => .hang
   | fuel+1, data, off, acc =>
     if data.isEmpty then .ok (acc, off) else
     match rd data with
-    | .ok (cs, n) => packedLoop rd fuel (data.drop n) (off + n) (acc ++ cs)
+    | .ok (cs, n) =>
+      if n = 0 then .err else packedLoop rd fuel (data.drop n) (off + n) (acc ++ cs)
     | .err => .err | .panic => .panic | .hang => .hang
 
 /-- the counted arm of `readAsSlice` and the loop of `readAsJSON`: `count`
